@@ -265,3 +265,23 @@ for _p in ("C01", "C02", "C06", "C07", "C03", "C04", "C08", "C09", "C10", "C12",
     PROPS[_p]["vmcheck"] = True
     PROPS[_p]["coq_files"] = PROPS[_p]["coq_files"] + ["Cases/Eval.v"]
 PROPS["C09"]["build_expect"] = gens.build_expect_c09
+
+# ---- translated kernels (tools/rs2coq.py -> coq/Gen/Code<G>.v, proved equal to the model in coq/Gen/Tie<G>.v):
+# which groups each property's check regenerates and re-proves
+TIE_GROUPS = {
+    "C01": ["Mask", "Swar"], "C02": ["Mask", "Swar"], "C06": ["Mask", "Swar"], "C07": ["Mask", "Swar"],
+    "C09": ["Mask", "Swar"], "C05": ["Mask"],
+    "C03": ["RabinKarp", "ByteSet", "Prefilter", "Searcher", "Mask"],
+    "C04": ["RabinKarp", "ByteSet", "Mask"],
+    "C08": ["Prefilter", "Searcher"], "C10": ["Prefilter", "Searcher"], "C16": ["Prefilter"],
+    "C11": ["Mask", "Pair"], "C12": ["RabinKarp", "ByteSet", "Mask"],
+    "C13": ["Searcher", "RabinKarp", "Prefilter"],
+    "C14": ["Prefilter", "RabinKarp", "Swar", "ByteSet", "Mask", "Pair", "Searcher"],
+    "C19": ["Pair"],
+}
+for _pid, _g in TIE_GROUPS.items():
+    PROPS[_pid]["tie_groups"] = _g
+    PROPS[_pid].setdefault("trusted", [])
+    PROPS[_pid]["trusted"] = PROPS[_pid]["trusted"] + [
+        "tools/rs2coq.py (Rust-subset -> Gallina translator, fails closed) and the integer semantics of coq/Gen/Ops.v "
+        "for the translated kernels (" + ", ".join(_g) + "); the tie lemmas Gen/Tie*.v are proved for all arguments"]
